@@ -496,6 +496,7 @@ class FP:
         if name == 'fabs': return z3.fpAbs(a)
         if name == 'sqrt': return z3.fpSqrt(s.rm, a)
         if name == 'isnan': return z3.fpIsNaN(a)
+        if name == 'copysign': return z3.If(z3.fpIsNegative(s.z(args[1])), z3.fpNeg(z3.fpAbs(a)), z3.fpAbs(a))
         if name == 'fmod': return z3.fpRem(a, s.z(args[1])) if False else _unsup("fmod in FP")
         raise Unsupported("libm %s in FP domain" % name)
 def _unsup(m): raise Unsupported(m)
